@@ -174,6 +174,9 @@ func init() {
 		c.Bounds["full_permutations_up_to_keys"] = mcrt.MaxFullPerm
 		c.Bounds["above"] = "2n rotations of the ascending and descending orders"
 		c.Bounds["base_policies"] = 2
+		if !c.Thorough() {
+			c.Bounds["pairs"] = "every 60th pair of order-sensitive features (fixed enumeration order); thorough: all"
+		}
 		units := c07Units(c)
 		c.Bounds["units(input x options)"] = len(units)
 		maxExec := int64(6000)
